@@ -190,6 +190,8 @@ def cppEval (ρ : Env) : Expr → CRes
   -- a reference to a virtual field: a literal when constant-typed, otherwise the field's own
   -- accessor, i.e. the C++ evaluation of its definition (whose root does the same test)
   | .vref e => cppEval ρ e
+  -- `has_a()`: the C++ evaluation of the existence condition (rendered on its own, same test)
+  | .present _ c => cppEval ρ c
 def cppEvalList (ρ : Env) : List Expr → List CRes
   | [] => []
   | e :: es => cppEval ρ e :: cppEvalList ρ es
